@@ -59,6 +59,8 @@ Init ==
     /\ hist = << >>
 
 Go(a, to) == pc' = [pc EXCEPT ![a] = to] /\ hist' = Append(hist, a)
+RECURSIVE SetMask(_)
+SetMask(S) == IF S = {} THEN 0 ELSE LET t == CHOOSE x \in S : TRUE IN 2 ^ (t - 1) + SetMask(S \ {t})
 
 \* ---- WriteTxn
 WBegin(a) ==       \* -> wtxn.begin
@@ -153,9 +155,12 @@ RegUnlock(a) ==    \* NewTable returns; the registrar now starts a write transac
 \* ---- graveyard collector: lock-free scan of the published root, then a write transaction over the tables chosen
 GScan(a) ==        \* -> gc.scanned (= "start" of its write transaction)
     /\ a = Collector /\ pc[a] = "gc.idle"
-    /\ \E S \in (SUBSET DOMAIN root) \ {{}} : gcreq' = S
+    /\ \E S \in (SUBSET DOMAIN root) \ {{}} :
+          /\ gcreq' = S
+          \* in the schedule the scan is written as 10 * actor + bit mask of the chosen tables
+          /\ hist' = Append(hist, 10 * a + SetMask(S))
     /\ gcpass' = gcpass + 1
-    /\ Go(a, "start")
+    /\ pc' = [pc EXCEPT ![a] = "start"]
     /\ UNCHANGED << lk, rootmu, root, txr, nreg, notified >>
 
 StepOf(a) ==
